@@ -236,6 +236,55 @@ class OrderAnalysis:
                     verdict = 'early exit does not expose the chosen element'
                 site['verdict'] = verdict
                 sites.append(site)
+        # (a') short-circuiting reducers over a hash-ordered collection whose
+        # per-element callable has side effects: which elements are visited
+        # before the reducer stops depends on the iteration order
+        for n in own_nodes(fi):
+            if not (isinstance(n, ast.Call) and isinstance(n.func, ast.Name)
+                    and n.func.id in ('any', 'all', 'next') and n.args):
+                continue
+            a = n.args[0]
+            st = state_of(n)
+            coll, callee_exprs = None, []
+            if isinstance(a, ast.Call) and isinstance(a.func, ast.Name) and \
+                    a.func.id in ('map', 'filter') and len(a.args) >= 2:
+                if any(self.unordered(fi, x, st) for x in a.args[1:]):
+                    coll, callee_exprs = a.args[1], [a.args[0]]
+            elif isinstance(a, ast.GeneratorExp):
+                if any(self.unordered(fi, g.iter, st) for g in a.generators):
+                    coll = a.generators[0].iter
+                    callee_exprs = [c.func for c in ast.walk(a.elt)
+                                    if isinstance(c, ast.Call)]
+                    for g in a.generators:
+                        for cond in g.ifs:
+                            callee_exprs += [c.func for c in ast.walk(cond)
+                                             if isinstance(c, ast.Call)]
+            if coll is None:
+                continue
+            site = {'kind': 'reducer', 'line': n.lineno, 'expr': norm_src(n)[:80],
+                    'function': fi.fq}
+            impure = None
+            for ce in callee_exprs:
+                for g in self._callable_funcs(fi, ce):
+                    sm = E.summ.get(g.fq)
+                    if sm and (any(not k.startswith('^') for k in sm.mutates)
+                               or sm.global_writes):
+                        impure = g
+            if impure is not None:
+                site['verdict'] = 'ESCAPES: side effects of %s' % impure.qualname
+                findings.append({
+                    'kind': 'choice-escapes', 'line': n.lineno,
+                    'loop_line': n.lineno, 'iter': norm_src(coll),
+                    'function': fi,
+                    'why': '`%s(...)` stops at the first decisive element of '
+                           'the hash-ordered `%s`, and the per-element call to '
+                           '%s writes to its arguments: which elements get '
+                           'processed depends on the hash order' % (
+                               n.func.id, norm_src(coll), impure.qualname)})
+            else:
+                site['verdict'] = 'per-element test has no side effects: the ' \
+                                  'reduced value is order-independent'
+            sites.append(site)
         # (b) first-element selections
         for n in own_nodes(fi):
             sel = self._selection(fi, n, state_of)
@@ -366,6 +415,32 @@ class OrderAnalysis:
                       s.global_writes):
                 return True
         return False
+
+    def _callable_funcs(self, fi, e, depth=0):
+        """Package functions a callable expression may stand for (through local
+        functools.partial bindings and lambdas)."""
+        out = []
+        if depth > 3:
+            return out
+        if isinstance(e, ast.Lambda):
+            for c in ast.walk(e.body):
+                if isinstance(c, ast.Call):
+                    out += self._callable_funcs(fi, c.func, depth + 1)
+            return out
+        if isinstance(e, ast.Call) and isinstance(e.func, (ast.Name, ast.Attribute)):
+            r = self.cg.resolve_name_expr(fi, e.func)
+            if r and r[0] == 'ext' and r[1] == 'functools.partial' and e.args:
+                return self._callable_funcs(fi, e.args[0], depth + 1)
+            return out
+        if isinstance(e, (ast.Name, ast.Attribute)):
+            r = self.cg.resolve_name_expr(fi, e)
+            if r and r[0] in ('func', 'nested'):
+                return [r[1]]
+            if isinstance(e, ast.Name):
+                from .util import assigned_value
+                for v in assigned_value(fi, e.id):
+                    out += self._callable_funcs(fi, v, depth + 1)
+        return out
 
     def _selection(self, fi, n, state_of):
         """(collection expr, description) if n selects one element of a U collection."""
